@@ -336,9 +336,59 @@ def refusal_reaches_caller(prog, rep, rule="open-checks"):
     rep.floor(rule + "/refusal-path", n, 5)
 
 
+def path_identity(prog, rep, rule="open-checks"):
+    """The file an object opens is the one the caller named: `self.file_path` is bound once, in __init__, to the argument (through
+    Path(..)); no method re-points it (to a 'similar' name, a resolved twin, a default) before or after the existence check."""
+    tdf = prog.need_cls("Tdf", "basictdf")
+    init = prog.need_method(tdf, "__init__")
+    params = set(init.params)
+    n = 0
+    for f in tdf.all_funcs():
+        for st in walk_no_nested(f.node):
+            tgs = st.targets if isinstance(st, ast.Assign) else [st.target] if isinstance(st, (ast.AnnAssign, ast.AugAssign)) else []
+            for t in tgs:
+                for y in ast.walk(t):
+                    if is_self_attr(y, "file_path") and isinstance(y.ctx, ast.Store):
+                        n += 1
+                        v = getattr(st, "value", None)
+                        good = f.name == "__init__" and isinstance(st, (ast.Assign, ast.AnnAssign)) and v is not None and (
+                            (isinstance(v, ast.Name) and v.id in params)
+                            or (isinstance(v, ast.Call) and norm(v.func) in ("Path", "pathlib.Path") and len(v.args) == 1 and isinstance(v.args[0], ast.Name) and v.args[0].id in params))
+                        if good:
+                            rep.ok(rule, f"Tdf.{f.name}: `{norm(head(st))}` (the caller's path)")
+                        else:
+                            rep.fail(rule, tdf.module.path.name, f"Tdf.{f.name}", st, f"`{norm(head(st))[:70]}` re-points the object at another path than the one it was given: a path that does not exist "
+                                     "(or is not a TDF) can then yield another file's data instead of being refused", construct=f"Tdf.{f.name} rebinds file_path")
+    rep.floor(rule + "/path-stores", n, 1)
+
+
+def refusal_is_plain(prog, rep, rule="exists-before-create"):
+    """The FileExistsError of new / copy is raised as such: building its message runs no code that can fail first (opening the
+    existing target to describe it raises whatever that open raises for a non-TDF file)."""
+    tdf = prog.need_cls("Tdf", "basictdf")
+    n = 0
+    for name in ("new", "copy"):
+        f = tdf.get(name)
+        if f is None:
+            raise AnalysisError(f"anchor vanished: Tdf.{name}")
+        for r in [x for x in walk_no_nested(f.node) if isinstance(x, ast.Raise) and x.exc is not None]:
+            n += 1
+            calls = [c for c in ast.walk(r.exc) if isinstance(c, ast.Call) and c is not r.exc]
+            risky = [c for c in calls if not (isinstance(c.func, ast.Name) and c.func.id in ("str", "repr", "len", "int", "format", "type")
+                                              and all(isinstance(a, (ast.Name, ast.Attribute, ast.Constant)) for a in c.args))]
+            if risky:
+                rep.fail(rule, tdf.module.path.name, f"Tdf.{name}", r, f"the refusal `{norm(head(r))[:70]}` evaluates `{norm(risky[0])[:40]}` while building its message: if that fails "
+                         "(e.g. it opens the existing, non-TDF target) the caller gets that exception instead of the refusal", construct=f"Tdf.{name} refusal message calls {norm(risky[0].func)}")
+            else:
+                rep.ok(rule, f"Tdf.{name}: `{norm(head(r))[:60]}` builds its message without running code that can fail")
+    rep.floor(rule + "/refusals", n, 2)
+
+
 def run(prog, rep):
     rep.attempt(container_own_state, prog, rep)
     rep.attempt(refusal_reaches_caller, prog, rep)
+    rep.attempt(path_identity, prog, rep)
+    rep.attempt(refusal_is_plain, prog, rep)
     ct = Container(prog)
     cd = Codecs(prog)
     cd.flag_errors(rep)
